@@ -253,7 +253,7 @@ inline int harnessMain(int argc, char** argv, const Harness& h) {
 		printf("REPLAY property=%s verdict=%s signature=%s\n", h.id, v == FAIL ? "FAIL" : v == OK ? "OK" : "DISCARD",
 			   run.haveCandidate ? run.candidate.signature.c_str() : "-");
 		if (run.haveCandidate)
-			printf("REPLAY-DETAIL %s\n", run.candidate.detail.c_str());
+			printf("REPLAY-DETAIL %.1500s\n", run.candidate.detail.c_str());
 		fflush(stdout);
 		return v == FAIL ? 1 : 0;
 	}
